@@ -482,6 +482,9 @@ theorem stmt_key (C : Ctx) (st : Stmt) (u : UserSt) (g : KG) (Q : UserSt → KG 
     split
     · exact kwp_ign _ _ _ _ _ trivial (fun r => kwp_out _ _ _ Q (by decide) (hQ _ _ hi))
     · exact kwp_out _ _ _ Q (by decide) (hQ _ _ hi)
+  | tryNew kind s =>
+    simp only [stmt]
+    exact kwp_out _ _ _ Q (by simp only [mkOutOk, mkOutWouldBlock]; (repeat' split) <;> omega) (hQ _ _ hi)
 
 /-- **Key refinement, whole programs.** -/
 theorem program_key (C : Ctx) (prog : List Stmt) (u : UserSt) (g : KG) (Q : UserSt → KG → Prop)
